@@ -171,7 +171,7 @@ PROPERTIES["C04"] = {
 A_S5 = "S5: block compression functions of sha2/sha1/md-5 replaced by a cheap word-mixing stub that keeps the digest a function of every byte of every block in order (injective on short single-block messages); padding, buffering, hex encoding and all comparisons are the real code. The thorough tier repeats single-tag shapes with the real SHA-256/SHA-1/MD5 compression"
 A_S4 = "S4: portable (force-soft) hash back ends instead of SHA-NI/asm"
 _C03_QUICK = {0, 1, 2, 4, 8, 15}
-PROPERTIES["C03"] = {
+C03_KANI = {
     "harnesses": [H("c03_digests_m%02d" % m, sub="digest", timeout=2400, mem_gb=16, tier=("quick" if m in _C03_QUICK else "thorough"),
                     inputs="recorded MD5 (16 bytes), SHA1 (40 chars), SHA256 (64 chars), payload digest (64 chars), algorithm id (u32): all symbolic",
                     bounds="tag subset mask %d (1=MD5 2=SHA1 4=SHA256 8=payload digest); main header 120/50 bytes, payload 3 concrete bytes" % m)
@@ -288,6 +288,7 @@ NOT_APPLICABLE = {
     "C12": "effects are file-system system calls (no model; symlink resolution is kernel semantics) and Path::join/strip_prefix/components exhausted 20 GB at four symbolic characters",
     "C17": "destination handling is PathBuf::parent/strip_prefix/file_name (same blow-up as C12); compression levels are consumed by C libraries behind FFI; capability text is C19",
     "C02": "not yet built",
+    "C03": "being rebuilt on the MIR engine: the Kani harnesses (kept in harness/digest.rs) need > 30 min each because CBMC does not prune branches on niche-encoded Result values, so every digest is hashed symbolically in every shape",
     "C05": "not yet built",
     "C09": "not yet built",
 }
@@ -296,7 +297,7 @@ PROPERTIES["C13"].update(claim="compare_version_string is symbolically executed 
                          "result equals an independent transliteration of rpm's rpmvercmp, is antisymmetric and reflexive; transitivity on triples up to 2 bytes each.",
                          note="Bounded by string length and to ASCII. Trusted base: the MIR interpreter and its std models (validated against the real crate on concrete inputs every run), z3, the rpmvercmp transliteration.")
 
-PROPERTIES["C03"].update(claim="verify_digests is model-checked on a package of fixed small shape for each of the 16 subsets of digest tags with every recorded digest value and "
+C03_KANI.update(claim="verify_digests is model-checked on a package of fixed small shape for each of the 16 subsets of digest tags with every recorded digest value and "
                          "algorithm id symbolic: Ok exactly when all recorded values equal the recomputed ones, DigestMismatchError on a mismatch, error for other algorithm ids.",
                          note=_NOTE)
 
